@@ -39,7 +39,7 @@ RULE = ("Hypothesis draws a netgen.grid recipe (1-3 voltage levels, <=12 buses, 
         "or a loop; distinct by case hash.")
 ASSUMPTIONS = [
     "power flow (runpp, calculate_voltage_angles=True, trafo_model 't', tolerance 1e-10 p.u.) is the trusted source of the true state; "
-    "cases in which every energized bus is a slack bus and an ext_grid angle is != 0 are skipped (runpp bypass drops the angles)",
+    "collapsed power-flow solutions (a bus outside 0.5..1.5 p.u.) are skipped",
     "bus p/q measurements exclude shunt and ward-impedance power (these belong to the estimator's network model, cf. "
     "estimation/util.py:remove_shunt_injection_from_meas); load reference system as documented in create_measurement",
     "all buses of a fused node (closed zero-impedance bus-bus switches) are measured together when one of them gets a p/q measurement "
@@ -525,15 +525,6 @@ def check(case):
     T = Truth(net)
     if not T.buses:
         res.skipped = "nothing-energized"
-        return res
-    # trusted-base guard: when every energized bus is a slack bus, runpp bypasses the solver and builds the voltages
-    # from the magnitudes only (powerflow.py:_bypass_pf_and_set_results) - slack angle setpoints != 0 are dropped
-    slack_nodes = {T.node[b] for b in net.ext_grid.bus.values[net.ext_grid.in_service.values.astype(bool)] if b in T.alive}
-    if len(net.gen):
-        g = net.gen[net.gen.in_service.values.astype(bool) & net.gen.slack.values.astype(bool)]
-        slack_nodes |= {T.node[b] for b in g.bus.values if b in T.alive}
-    if all(T.node[b] in slack_nodes for b in T.buses) and (net.ext_grid.va_degree.values != 0).any():
-        res.skipped = "pf-bypass-drops-slack-angles"
         return res
     if any(not 0.5 <= float(net.res_bus.vm_pu.at[b]) <= 1.5 for b in T.buses):
         res.skipped = "pf-degenerate-solution"       # collapsed low-voltage solution of the power flow (vm ~ 0): no meaningful truth
